@@ -61,8 +61,8 @@ chk('C18', FE,
     'Single session per query (no concurrency); stdio buffering not modelled; loader/verifier/VM are stubs here (their own subjects are C12/C13).',
     'CBMC with nondeterministic POSIX stubs over the real session / accept-loop code', 'DESIGN.md 4/C18')
 chk('C19', MC,
-    'Serialisation kernels only: self-composition under CBMC shows isa_encode (every opcode) and nvm_serialize (all module shapes) produce byte-identical output for inputs that agree on semantic content and differ arbitrarily in unused bytes, padding, stale bookkeeping fields and buffer contents; no clock/env/pid source is consulted.',
-    'transpile_to_c / codegen_compile as wholes (module paths, hash order, uninitialised scratch memory there) are NOT decided.',
+    'Kernels only: self-composition under CBMC shows isa_encode (every opcode) and nvm_serialize (all module shapes) produce byte-identical output for inputs that agree on semantic content and differ arbitrarily in unused bytes, padding, stale bookkeeping fields and buffer contents; no clock/env/pid source is consulted. On the generated-C side: the struct/union definition sort of transpiler.c emits the same order in two runs whose fresh heap memory differs arbitrarily (every dependency graph on <= 3 structs + 1 union; thorough 4 + 2), counterexamples replayed on the real nanoc_c under glibc malloc.perturb.',
+    'transpile_to_c / codegen_compile as wholes (module paths, hash order, other scratch memory there) are NOT decided.',
     'CBMC self-composition (two runs, semantically equal inputs, outputs compared)', 'DESIGN.md 4/C19')
 chk('C20', MC,
     'CBMC on the real runtime/dyn_array.c: one operation of every accessor/mutator (all element kinds incl. structs) from ANY valid array (symbolic length 0..capacity incl. the full array that must grow, all contents, all indices/values): memory-safe incl. size-arithmetic overflow, invariant preserved, result equals the abstract list operation; the same inductive step for the string-builder helpers that nanoc emits into every generated C file (text taken from the real nanoc output).',
